@@ -74,7 +74,7 @@ func Generate(genseed uint64, stream string, thorough bool) *Case {
 	if stream != "twin" && stream != "twinreach" && stream != "mount" && stream != "sched" && !remoteMount && r.Chance(1, 4) {
 		addBlobTwin(r, g)
 	}
-	c := &Case{Stream: stream, Graph: g.Encode(), MapRoot: -1, FailNode: -1, GenSeed: genseed, Seed: r.U64(), Thorough: thorough}
+	c := &Case{Stream: stream, Graph: g.Encode(), MapRoot: -1, FailNode: -1, PreTag: -1, GenSeed: genseed, Seed: r.U64(), Thorough: thorough}
 
 	var manifests, nonforeign []int
 	for _, n := range g.Nodes {
@@ -324,7 +324,24 @@ func Generate(genseed uint64, stream string, thorough bool) *Case {
 		// finding "mounted-root-untagged".
 		c.Mount = true
 		c.MapRoot, c.Platform = -1, ""
-		if c.Mode == "r" && !g.Nodes[c.Root].IsManifest() {
+		if r.Chance(1, 6) {
+			// a blob root whose mount always succeeds, into a ReferencePusher (or Tagger) + Mounter: OnMounted
+			// must tag it (fix 5ffcc20); nothing falls back, so the unmodelled failing path is not entered
+			var bl []int
+			for _, i := range nonforeign {
+				if !g.Nodes[i].IsManifest() && len(g.Nodes[i].Bytes) > 0 && !set[i] {
+					bl = append(bl, i)
+				}
+			}
+			if len(bl) > 0 {
+				c.Root = common.Pick(r, bl)
+				c.Mode = common.Pick(r, []string{"r", "r", "t"})
+				c.MountAlways = true
+				c.RefFetch = false
+				c.CbSet = "1111" + "1"
+			}
+		}
+		if c.Mode == "r" && !g.Nodes[c.Root].IsManifest() && !c.MountAlways {
 			if len(manifests) > 0 {
 				c.Root = common.Pick(r, manifests)
 			} else {
@@ -409,6 +426,17 @@ func Generate(genseed uint64, stream string, thorough bool) *Case {
 		} else {
 			c.FailCb = common.Pick(r, []string{"pre", "post"})
 		}
+	}
+	// the destination reference may exist already, pointing at some other pre-populated content
+	if (c.Mode == "t" || c.Mode == "r" || c.Mode == "X") && c.Dst != "remote" && len(set) > 0 && r.Chance(1, 3) {
+		var ids []int
+		for k := range set {
+			if c.Dst != "oci" && c.Dst != "ocire" || true {
+				ids = append(ids, k)
+			}
+		}
+		sort.Ints(ids)
+		c.PreTag = common.Pick(r, ids)
 	}
 	if c.FailCb != "" && !c.CbIsSet(c.FailCb) { // an injected failure needs its callback
 		bits := []byte(c.cbBits())
